@@ -66,6 +66,8 @@ def hostOp (w : World) (h : Nat) (t : List String) : World × String :=
   | ["count"] => w.opCount h
   | ["countof", a] => (w.opCount (hostOf a)).map id id
   | ["spawn_ticker"] => (w, "ok")
+  | ["select4"] => (w, "?")          -- the pick is tokio's (seeded) choice: not modelled, compared only between twins
+  | ["exit"] => ((w.dropAll h).setHost h (fun hs => { hs with exited := true }), "ok")
   | ["net_partition", a, b] => (w.ctlPartition (hostOf a) (hostOf b), "ok")
   | ["net_partition1", a, b] => (w.ctlPartitionOneway (hostOf a) (hostOf b), "ok")
   | ["net_repair", a, b] => (w.ctlRepair (hostOf a) (hostOf b), "ok")
@@ -185,7 +187,7 @@ def line (s : RState) (ln : Nat) (l : String) : RState :=
       { s with w := s.w.stepEnd, inStep := false, expectObs := none }
     else
       let s := match s.expectObs with
-        | some want => if norm want == got then s else s.fail ln s!"want {want}"
+        | some want => if want == "?" || norm want == got then s else s.fail ln s!"want {want}"
         | none => s
       let s := { s with expectObs := none }
       if got == "panic" then { s with done := true } else s
